@@ -1,6 +1,12 @@
 package props
 
-import "nxcheck/internal/ir"
+import (
+	"strings"
+
+	"golang.org/x/tools/go/ssa"
+
+	"nxcheck/internal/ir"
+)
 
 func init() {
 	register(&Check{
@@ -124,10 +130,66 @@ func runC01(c *Ctx) {
 	deny("value outside eligible list denies", clause("value not in eligible list", F(`^call:slices\.Contains\(range\(%f\.wlMap\)#v, `+wlAttr+`\)$`)))
 	deny("excluded session id denies", clause("id in exclude list", T(`^call:slices\.Contains\(%f\.blIDs, %sub\.ID\)$`)))
 	nf := "router.NewSimplePublishFilter"
-	c.Fields(r8, nf, "filter literal", "router.simplePublishFilter", nil, map[string]string{
-		"blMap": `^call:router\.NewSimplePublishFilter\$1\("exclude_"\)$`,
-		"wlMap": `^call:router\.NewSimplePublishFilter\$1\("eligible_"\)$`,
-	}, 1)
+	// the exclude_<attr> lists fill the map the filter denies by, the eligible_<attr> lists the map it requires: the map
+	// updated under each option prefix is the one stored in the corresponding field (compared by allocation identity;
+	// the attribute-map helper is a closure, a function or inlined code, all normalised to the same shape)
+	if fn := c.Fn(r8, nf); fn != nil {
+		allocs := func(v ssa.Value) map[ssa.Value]bool {
+			out, seen := map[ssa.Value]bool{}, map[ssa.Value]bool{}
+			var walk func(ssa.Value)
+			walk = func(v ssa.Value) {
+				if seen[v] {
+					return
+				}
+				seen[v] = true
+				switch x := v.(type) {
+				case *ssa.Phi:
+					for _, e := range x.Edges {
+						walk(e)
+					}
+				case *ssa.MakeMap:
+					out[x] = true
+				}
+			}
+			walk(v)
+			return out
+		}
+		filled := map[string]map[ssa.Value]bool{}
+		stored := map[string]map[ssa.Value]bool{}
+		for _, in := range ir.Instrs(fn) {
+			switch x := in.(type) {
+			case *ssa.MapUpdate:
+				k := ir.Desc(x.Key)
+				for _, p := range []string{"exclude_", "eligible_"} {
+					if strings.Contains(k, `len("`+p+`")`) {
+						filled[p] = allocs(x.Map)
+					}
+				}
+			case *ssa.Store:
+				d := ir.Desc(x.Addr)
+				for _, f := range []string{"blMap", "wlMap"} {
+					if d == "new(router.simplePublishFilter).&"+f {
+						stored[f] = allocs(x.Val)
+					}
+				}
+			}
+		}
+		same := func(a, b map[ssa.Value]bool) bool {
+			if len(a) == 0 || len(a) != len(b) {
+				return false
+			}
+			for k := range a {
+				if !b[k] {
+					return false
+				}
+			}
+			return true
+		}
+		c.R.Check(same(filled["exclude_"], stored["blMap"]), r8, nf, "filter literal: the exclude_<attr> lists are the deny map", c.P.FuncPos(fn), "the map filled from exclude_<attr> options is not the one stored in simplePublishFilter.blMap")
+		c.R.Check(same(filled["eligible_"], stored["wlMap"]), r8, nf, "filter literal: the eligible_<attr> lists are the require map", c.P.FuncPos(fn), "the map filled from eligible_<attr> options is not the one stored in simplePublishFilter.wlMap")
+		c.Has(r8, nf, "exclude_<attr> options selected by their prefix", `^call:strings\.HasPrefix\(range\(%msg\.Options\)#k, "exclude_"\)$`, 1)
+		c.Has(r8, nf, "eligible_<attr> options selected by their prefix", `^call:strings\.HasPrefix\(range\(%msg\.Options\)#k, "eligible_"\)$`, 1)
+	}
 	c.Has(r8, nf, "exclude ids read from option 'exclude'", `^call:wamp\.AsID\(call:wamp\.AsList\(%msg\.Options\["exclude"\],ok#0\)#0\[`, 1)
 	c.Has(r8, nf, "eligible ids read from option 'eligible'", `^call:wamp\.AsID\(call:wamp\.AsList\(%msg\.Options\["eligible"\],ok#0\)#0\[`, 1)
 	c.R.Floor(r8, 12)
